@@ -510,6 +510,33 @@ def rule_tokendesc(chk, prog, tier):
     r.exhaustive = False
 
 
+# ------------------------------------------------------------------ C19.l storage shared between macros and tokens
+
+UAF_TEXTS = ['#define p int\np a; p b;\n', '#define p() int\np() a; p() b; p() c;\n', '#define K(x) while (x) return x\nK(1); K(2);\n', '#define A 1\n#define B A + A\nB; B;\n',
+             '#define S(x) #x\nS(int); S(int); S(a b);\n', '#define F(x) x + x\nF(unsigned); F(f(1,2));\n', '#define X 1\n#undef X\n#define X 2\nX; X;\n',
+             '#define X 1\n#define X 1\nX;\n', '#define V(...) __VA_ARGS__ __VA_ARGS__\nV(int, char); V(long);\n', '#define E()\nE() E();\n#undef E\nE();\n',
+             '#define G(a, b) a b a\nG(struct, s); G(union, u);\n', '#define T typedef\nT int t1; T int t2;\n#undef T\nT;\n']
+
+
+def rule_pp_uaf(chk, prog, tier):
+    r = chk.rule('C19.l', 'the preprocessor never reads, writes or releases storage it has already released: identifier spellings stored in a macro body or argument stay valid for every later expansion, whatever becomes of the tokens copied from them',
+                 floor=12, oracle='C11 7.22.3.3 (free): the released object must not be used again')
+    from props import c12
+    import eai as _eai, par
+    def work(text):
+        try:
+            run = c12.implementation(prog, text, max_steps=1500000, extra={'free': _eai.m_free_poison, 'tokendesc': lambda it, a, e: None})
+            return text, run.outcome, str(run.detail)
+        except AnalysisBroken as x:
+            return text, 'broken', str(x)
+    for text, outcome, det in par.pmap(work, UAF_TEXTS + [c12.DEFS + u for u in c12.USES[::4]]):
+        key = 'pp-storage:%s' % text.strip().replace('\n', ' \\n ')[-120:]
+        if outcome in ('unsupported', 'broken'):
+            raise AnalysisBroken('pp interpretation %s: %s' % (key, det))
+        r.instance(outcome != 'terminal:use-after-free', key, 'pp.c', det)
+    r.exhaustive = False
+
+
 def run(chk, tier):
     progs = facts.programs()
     prog = progs['cproc-qbe']
@@ -523,3 +550,4 @@ def run(chk, tier):
     chk.guard('C19.i', lambda: rule_nul(chk, prog, tier))
     chk.guard('C19.j', lambda: rule_pp_eof(chk, prog, tier))
     chk.guard('C19.k', lambda: rule_tokendesc(chk, prog, tier))
+    chk.guard('C19.l', lambda: rule_pp_uaf(chk, prog, tier))
